@@ -171,6 +171,11 @@ func (s *Scanner) Length() uint {
 	for {
 		lex, ok := s.Next()
 		if !ok {
+			if !s.hasTrailingCharacters {
+				// The input ended inside the schema. A user comment at its end
+				// produces no lexical events, but is still a part of the schema.
+				length = uint(s.dataSize)
+			}
 			break
 		}
 
